@@ -4,3 +4,4 @@ from . import io_rules  # noqa: F401
 from . import cmp_rules  # noqa: F401
 from . import derive_rules  # noqa: F401
 from . import introspect_rules  # noqa: F401
+from . import lock_rules  # noqa: F401
